@@ -5,6 +5,7 @@ import Proofs.Machine.MiscSource
 import Proofs.Machine.SubmoduleLogSource
 import Proofs.Machine.HunkRowsShape
 import Proofs.Machine.CommitBlocksEx
+import Proofs.Machine.CommitMetaSource
 import Proofs.Headers.Paths
 import Proofs.Headers.HunkHeader
 /-!
@@ -824,5 +825,50 @@ theorem commit_line_prefix_needed :
     (match run { commitStyle := { isRaw := true } } [{ mkL "diff --git a/x b/x" with commitRe := true }] with
      | .ok m => (m.out.filter (fun r => r.kind == .file)).map (fun r => (String.ofList r.text, r.src))
      | .error _ => []) = [("x", 1)] := by decide
+
+-- the commit-line handler, from its source (T19) ---------------------------------------------------------------
+
+/-- **`commit_meta_handler_follows_source`**: the statements of `handle_commit_meta_header_line` and of
+`_handle_commit_meta_header_line` as the extractor regenerates them from `src/handlers/commit_meta.rs`
+(`Generated.CommitMeta.body`: guard on `test_commit_meta_header_line` = a match of the commit regex, `let mut handled_line = false`,
+`paint_buffered_minus_and_plus_lines`, `handle_pending_line_with_diff_name`, `self.state = State::CommitMeta`,
+`if self.should_handle() { emit; _handle_commit_meta_header_line; handled_line = true }`, `Ok(handled_line)`; `inner`: early return for an
+omitted commit style outside color-only mode, then the one `draw_fn` call in `commit_style`), executed by the interpreter
+`DeltaModel/CommitMetaSrc.lean`, compute exactly the model's `handleCommitMeta` — the function the model driver runs and
+`one_file_header_per_section_log` is about — for every configuration, machine state and line. Dropping the call that writes the
+file header still owed to the section before the commit line, moving it behind the state change or into the `should_handle`
+block, or moving the state change into that block (the message lines of a commit with a raw commit style would then be read in
+the state of the diff before) changes the generated list and this theorem no longer builds. -/
+theorem commit_meta_handler_follows_source (cfg : Cfg) (m : M) (l : L) :
+    CommitMetaSrc.handleCommitMetaSrc cfg m l = some (handleCommitMeta cfg m l) :=
+  CommitMetaSrc.handleCommitMetaSrc_eq cfg m l
+
+/-- … and what the source does at a line the commit regex matches: it ends in `CommitMeta` for every commit style, and the line
+is claimed exactly when the commit style is not "raw without decoration" — decided in `CommitMeta`, after the owed header. -/
+theorem commit_line_sets_state_after_pending_header (cfg : Cfg) (m : M) (l : L) (hre : l.commitRe = true) :
+    ∃ b z, CommitMetaSrc.handleCommitMetaSrc cfg m l = some (.ok (b, z)) ∧ z.st = .commitMeta ∧
+      b = shouldHandle cfg { pendingDiffName cfg (flushMP m) with st := .commitMeta } :=
+  CommitMetaSrc.commit_line_sets_state_after_pending_header cfg m l hre
+
+/-- the state in which a commit line arrives after a mode-only section (header owed); what the source makes of the line: the
+owed header; what the function *without* the call, or with the call inside the `should_handle` block under a raw commit style,
+makes of it: no header (it is then written after the commit block, or never); unknown statements give no result at all -/
+example : (match runFrom {} {} modeOnlyHead with
+    | .ok m =>
+      fileTexts (CommitMetaSrc.handleCommitMetaSrc {} m (Machine.CommitBlocksEx.mkC "commit 1234567")) == ["run.sh (mode +x)"] &&
+      fileTexts (CommitMetaSrc.handleCommitMetaSrc { commitStyle := { isRaw := true } } m (Machine.CommitBlocksEx.mkC "commit 1234567"))
+        == ["run.sh (mode +x)"] &&
+      fileTexts (CommitMetaSrc.exec {} (Machine.CommitBlocksEx.mkC "commit 1234567") m.n
+          [.declineUnless "test_commit_meta_header_line", .letHandled false, .paintBuffered, .setState "CommitMeta",
+           .ifShouldHandle [.emit, .call "_handle_commit_meta_header_line", .setHandled true], .returnHandled] m false) == [] &&
+      (match CommitMetaSrc.exec { commitStyle := { isRaw := true } } (Machine.CommitBlocksEx.mkC "commit 1234567") m.n
+          [.declineUnless "test_commit_meta_header_line", .letHandled false, .paintBuffered, .setState "CommitMeta",
+           .ifShouldHandle [.call "handle_pending_line_with_diff_name", .emit, .call "_handle_commit_meta_header_line",
+             .setHandled true], .returnHandled] m false with
+        | some (.ok (b, z)) => !b && fileTexts (some (.ok (b, z))) == []
+        | _ => false) &&
+      (CommitMetaSrc.exec {} (Machine.CommitBlocksEx.mkC "commit 1234567") m.n
+          [.declineUnless "test_commit_meta_header_line", .unknown "self.x();", .returnHandled] m false).isNone
+    | .error _ => false) = true := by decide
 
 end C14
